@@ -129,6 +129,17 @@ def c01_1(R):
             pass
         else:
             R.fail([b.name, "write(Segments.removed_offset)", fu.op], "unexpected writer of Segments.removed_offset", where=s.where(), instance="removed_offset-writers")
+    # the counters start in step with the empty queue
+    sn_ = R.body(SEG + "::new")
+    for st_ in sn_.stmts():
+        if st_.rv.kind == "agg" and st_.rv.j.get("adt") == SEG:
+            nm_ = st_.rv.j["fields"]
+            bad_ = [f_ for f_ in ("len_bytes", "offset", "removed_offset") if not (st_.rv.ops[nm_.index(f_)].kind == "const" and st_.rv.ops[nm_.index(f_)].scalar == 0)]
+            su = trace(sn_, st_.rv.ops[nm_.index("snd_una")])
+            if not bad_ and su.kind == "param" and su.root[1] == 1:
+                R.ok("tx-accounting:new", sn_.name, "len_bytes = offset = removed_offset = 0, snd_una = the first sequence number")
+            else:
+                R.fail([sn_.name, "initial-accounting", ",".join(bad_) or "snd_una"], "a new segment queue does not start with zeroed byte counters and snd_una = its first sequence number: every later offset is shifted", where=st_.where(), instance="tx-accounting:new")
     R.floor("accounting events in Segments", total, 14)
     R.floor("Segments methods touching the queue accounting", touched, 4)
 
